@@ -1,6 +1,9 @@
 package sess
 
 import (
+	"time"
+	"fmt"
+	"runtime"
 	"bufio"
 	"encoding/json"
 	"os"
@@ -52,7 +55,9 @@ func TestScenarios(t *testing.T) {
 		if err := json.Unmarshal(sc.Bytes(), &s); err != nil {
 			t.Fatalf("DRIVER-ERROR bad scenario line %d: %v", n, err)
 		}
+		unwatch := watch(s.ID)
 		recs, failure := RunScenario(t, &s)
+		unwatch()
 		if failure != "" {
 			t.Fatalf("DRIVER-ERROR scenario %s: %s", s.ID, failure)
 		}
@@ -102,7 +107,9 @@ func TestDispatch(t *testing.T) {
 		if s.Handlers == nil {
 			s.Handlers = []HSpec{}
 		}
+		unwatch := watch(s.ID)
 		recs, failure := RunDispatch(t, &s)
+		unwatch()
 		if failure != "" {
 			t.Fatalf("DRIVER-ERROR scenario %s: %s", s.ID, failure)
 		}
@@ -167,7 +174,9 @@ func TestSendPath(t *testing.T) {
 		if s.Kind == "gate" {
 			o, failure = RunGate(&s)
 		} else {
+			unwatch := watch(s.ID)
 			o, failure = RunStress(t, &s)
+			unwatch()
 		}
 		if failure != "" {
 			t.Fatalf("DRIVER-ERROR scenario %s: %s", s.ID, failure)
@@ -219,7 +228,9 @@ func TestDuplex(t *testing.T) {
 		if err := json.Unmarshal(sc.Bytes(), &s); err != nil {
 			t.Fatalf("DRIVER-ERROR bad scenario line %d: %v", n, err)
 		}
+		unwatch := watch(s.ID)
 		recs, failure := RunDuplex(t, &s)
+		unwatch()
 		if failure != "" {
 			t.Fatalf("DRIVER-ERROR scenario %s: %s", s.ID, failure)
 		}
@@ -229,4 +240,25 @@ func TestDuplex(t *testing.T) {
 			}
 		}
 	}
+}
+
+
+// watch: a scenario runs in virtual time and takes milliseconds of real time.  One that does not finish within hangAfter of REAL
+// time has a goroutine of the library blocked for good on something that is not a durable wait of the bubble (a mutex that is never
+// released): the virtual clock cannot advance any more.  The stacks are printed for the checks and the process ends.
+const hangAfter = 90 * time.Second
+
+func watch(id string) func() {
+	done := make(chan struct{})
+	go func() {
+		select {
+		case <-done:
+		case <-time.After(hangAfter):
+			buf := make([]byte, 1<<20)
+			n := runtime.Stack(buf, true)
+			fmt.Printf("LIBRARY-HANG scenario %s did not finish within %s of real time\n%s\nEND-OF-STACKS\n", id, hangAfter, buf[:n])
+			os.Exit(3)
+		}
+	}()
+	return func() { close(done) }
 }
